@@ -118,3 +118,21 @@ package store
 //@ model Momentum idTimestamp int   // TimestampUnix of the momentum this store is the state of
 //@ func Momentum.GetFrontierAccountBlock(self, address) -> (b, err)
 //@   modifies nothing
+
+// ---- balances ---------------------------------------------------------------------------------------------------------
+// GetBalance hands out a fresh big.Int (the stores decode it from bytes), never negative.
+//@ func Account.GetBalance(self, zts) -> (b, err)
+//@   ensures err == nil ==> b != nil && fresh(b) && val(b) == self.balance[zts]
+//@   ensures self.balance[zts] >= 0
+//@   modifies nothing
+
+//@ func Account.SetBalance(self, zts, balance)
+//@   requires balance != nil
+//@   ensures result == nil ==> self.balance == store(old(self.balance), zts, val(balance))
+//@   ensures result != nil ==> self.balance == old(self.balance)
+//@   modifies self.balance
+
+//@ func Account.MarkAsReceived(self, hash)
+//@   ensures result == nil ==> self.received == store(old(self.received), hash, true)
+//@   ensures result != nil ==> self.received == old(self.received)
+//@   modifies self.received
